@@ -27,6 +27,7 @@ func init() {
 			{"C15-R5", "no queued event is dropped on the way to its handler", c15r5},
 			{"C15-R6", "the IP a pod was indexed under comes from the cache, not from the event", c15r6},
 			{"C15-R7", "every replay taken out of needResync is queued", c15r7},
+			{"C15-R8", "a changed cluster network is always propagated", c15r8},
 		},
 	})
 }
@@ -510,5 +511,31 @@ func c15r7(c *Ctx) {
 	}
 	}
 	c.Check("addPod drains needResync in a loop", fn.Pos(), n == 1, "no loop over the needResync entry of the pod's IP found in addPod")
+	c.Floor(2)
+}
+
+// C15-R8: a changed cluster network is always propagated. The network of the registry's endpoints comes from a label on
+// the system namespace; whenever setNetworkFromNamespace reports a change, everything built with the previous value is
+// refreshed (onNetworkChange: pods, endpoints, services) - whatever the event type, because the Namespace event is not
+// ordered against the Pod / EndpointSlice events. In onSystemNamespaceEvent every path from the call to a return passes
+// onNetworkChange, except under the "nothing changed" edge.
+func c15r8(c *Ctx) {
+	p := c.P
+	fn := p.Func(pkgKubeCtl, "Controller", "onSystemNamespaceEvent")
+	set := p.FuncObj(pkgKubeCtl, "networkManager", "setNetworkFromNamespace")
+	onc := p.FuncObj(pkgKubeCtl, "Controller", "onNetworkChange")
+	calls := callsIn(fn, set)
+	c.Check("onSystemNamespaceEvent reads the network label", fn.Pos(), len(calls) == 1, "expected one call of setNetworkFromNamespace")
+	for _, cs := range calls {
+		v := cs.Value()
+		unchanged := edgesWhere(fn, func(x ssa.Value) bool { return x == ssa.Value(v) }, false)
+		bad, found := pathAvoidingE(nil, cs.(ssa.Instruction), deepMust(func(ins ssa.Instruction) bool { return isCallTo(ins, onc) }, 1), isReturn, unchanged, nil)
+		pos := cs.Pos()
+		if bad != nil {
+			pos = bad.Pos()
+		}
+		c.Check("a changed network label always reaches onNetworkChange", pos, !found,
+			"onSystemNamespaceEvent can return after setNetworkFromNamespace reported a change without refreshing what was built with the previous network: endpoints and pods processed before the Namespace event keep the old (empty) network, while the same objects processed namespace-first - or a cold start - carry the labelled one; cross-network routing for those endpoints is wrong until something else touches them")
+	}
 	c.Floor(2)
 }
